@@ -437,7 +437,26 @@ fn machine_with_dist(d: Dist, pos: u64) -> MSpec {
     let mut s = empty_state();
     s.trans[0] = Some(vec![Trans(0, 1.0)]);
     let one = konst(1.0);
-    match pos % 8 {
+    match pos % 12 {
+        // both counters set: the validation of one must not stand in for the other
+        8 => {
+            s.ca = Some(Counter { operation: Operation::Increment, dist: Some(one), copy: false });
+            s.cb = Some(Counter { operation: Operation::Decrement, dist: Some(d), copy: false });
+        }
+        9 => {
+            s.ca = Some(Counter { operation: Operation::Set, dist: Some(d), copy: false });
+            s.cb = Some(Counter { operation: Operation::Increment, dist: Some(one), copy: false });
+        }
+        // a valid action next to a counter with the adversarial distribution, and vice versa
+        10 => {
+            s.action = Some(Action::SendPadding { bypass: false, replace: false, timeout: one, limit: Some(one) });
+            s.cb = Some(Counter { operation: Operation::Increment, dist: Some(d), copy: false });
+        }
+        11 => {
+            s.action = Some(Action::UpdateTimer { replace: true, duration: one, limit: Some(d) });
+            s.ca = Some(Counter { operation: Operation::Increment, dist: Some(one), copy: false });
+            s.cb = Some(Counter { operation: Operation::Increment, dist: Some(one), copy: false });
+        }
         0 => s.action = Some(Action::SendPadding { bypass: false, replace: false, timeout: d, limit: None }),
         1 => s.action = Some(Action::SendPadding { bypass: true, replace: false, timeout: one, limit: Some(d) }),
         2 => s.action = Some(Action::BlockOutgoing { bypass: false, replace: true, timeout: d, duration: one, limit: None }),
